@@ -144,7 +144,34 @@ def run_c18(drv, prop, tier, args):
     if tdir is None:
         return fail_build(out)
     cmd = [os.path.join(tdir, "release", "sched"), "C18", "--root", drv.ROOT, "--sendsync-types", ntypes] + args
-    return drv.run(cmd, cwd=drv.ROOT)
+    rc = drv.run(cmd, cwd=drv.ROOT)
+    if tier != "thorough" or "--replay" in args or "--part" in args or rc == 2:
+        return rc
+    # E3c, supporting only: the same kind of two-thread bodies, free-running under Miri (happens-before race detector)
+    t0 = time.time()
+    env = dict(os.environ, CARGO_NET_OFFLINE="true", CARGO_TARGET_DIR=os.path.join(drv.ROOT, "target", "miri"), MIRIFLAGS="-Zmiri-disable-isolation -Zmiri-ignore-leaks", RUSTFLAGS="")
+    try:
+        p = subprocess.run(["cargo", "+nightly", "miri", "run", "--offline"], cwd=os.path.join(drv.ROOT, "miri"), env=env, capture_output=True, text=True, timeout=3600)
+        out = p.stdout + p.stderr
+    except Exception as e:
+        p, out = None, repr(e)
+    evp = os.path.join(drv.ROOT, "evidence", f"{prop}.json")
+    ev = json.load(open(evp))
+    ub = "Undefined Behavior" in out or "Data race detected" in out
+    status = "ok" if (p is not None and p.returncode == 0 and "miri pass ok" in out) else ("UB/data race reported" if ub else "did not run to completion (ignored: supporting pass)")
+    ev["coverage"]["miri_supporting_pass"] = {"status": status, "wall_s": round(time.time() - t0, 1), "what": "two concurrent sessions (different suites, same suite) and concurrent exports from one shared context, free-running under Miri; decides nothing unless it reports UB or a data race"}
+    if ub:
+        os.makedirs(os.path.join(drv.ROOT, "replays", prop), exist_ok=True)
+        log = os.path.join(drv.ROOT, "replays", prop, "miri.log")
+        open(log, "w").write(out)
+        ev["violations"] = ev.get("violations", 0) + 1
+        json.dump(ev, open(evp, "w"), indent=1)
+        print(f"VIOLATION property={prop} replay={log}")
+        print("  Miri reports undefined behaviour / a data race in a two-thread run: " + next((l for l in out.splitlines() if "error:" in l), "")[:300])
+        return 1
+    json.dump(ev, open(evp, "w"), indent=1)
+    print(f"[check] Miri supporting pass: {status} ({time.time()-t0:.0f}s)", file=sys.stderr)
+    return rc
 
 
 def dispatch(drv, prop, tier, args):
